@@ -24,7 +24,7 @@ import seams
 import world as W
 from peer import PEER
 
-TB_KINDS = {'tb', 'tbstack', 'tbbare', 'tbell', 'tbwrongmsg', 'tbwrongtype', 'tbdetail', 'tbdots', 'tbdotssuffix', 'tbinner', 'tbell2'}
+TB_KINDS = {'tb', 'tbstack', 'tbbare', 'tbell', 'tbwrongmsg', 'tbwrongtype', 'tbdetail', 'tbdots', 'tbdotssuffix', 'tbinner', 'tbell2', 'tbmember'}
 # 'tbdotsonly' (header + ellipsis, no final line) is deliberately absent: it is not a traceback block
 
 
@@ -60,6 +60,8 @@ def step_source(st):
 
 
 FLAGS = ast.PyCF_ALLOW_TOP_LEVEL_AWAIT
+import re as _re
+ANSI_RE = _re.compile(r'\x1b\[[0-9;]*m')
 
 
 def ref_exec_step(st, ns):
@@ -141,6 +143,9 @@ def tb_matches(st, ex, flags):
     ied = flags['IGNORE_EXCEPTION_DETAIL']
     if kind == 'tbdotssuffix':
         return False
+    if kind == 'tbmember':
+        # the want describes the member, the exception raised is the group
+        return (got_cls.rsplit('.', 1)[-1] == 'ValueError') if ied else False
     if kind == 'tbell2':
         # (the last word would have to occur twice)
         if ied:
@@ -343,19 +348,20 @@ def _model_loop(E, dt, steps, msteps, dtid, k, ctx, modtext, modname):
             if st.get('want_corrupt'):
                 E.silent.add('verdict')
                 break
-            if flags['ELLIPSIS'] and res['out'].startswith(pre):
+            if flags['ELLIPSIS'] and ANSI_RE.sub('', res['out']).startswith(pre):
                 window = []
                 window_keep = []
                 continue
             _fail(E, idx, ['GotWantException'], True, (ms['want_line'], ms['want_line']))
             break
-        full = ''.join(window + [res['out']])
+        full = ANSI_RE.sub('', ''.join(window + [res['out']]))
         wt = want_text + '\n'
         vr = res['value_repr']
 
         def same(a, b):
             # exact up to the final line break (an unfinished last line is still that line)
-            return a.rstrip('\n') == b.rstrip('\n')
+            # and up to terminal colour codes, which the comparison always removes
+            return ANSI_RE.sub('', a).rstrip('\n') == ANSI_RE.sub('', b).rstrip('\n')
         if isinstance(vr, tuple):
             # repr raised: only consulted when stdout does not settle it
             if res['out'] and (same(full, wt) or same(res['out'], wt)):
